@@ -109,7 +109,8 @@ def gen_sim(seed, i, pool):
         e1 = json.loads(json.dumps(envs[0]))
         e1[f] = gen_env(rng, idents, leads)[f]
         envs[1] = e1
-    return {"id": i, "grammar_name": name, "grammar_hex": text.hex(), "derives": derives, "ctx": ctx, "prefix": prefix, "format": fmt, "companions": companions, "envs": envs}
+    return {"id": i, "grammar_name": name, "grammar_hex": text.hex(), "derives": derives, "ctx": ctx, "prefix": prefix, "format": fmt, "companions": companions, "envs": envs,
+            "rustfmt_toml": (rng.choice(["hard_tabs = true\n", "max_width = 60\n", "tab_spaces = 2\n"]) if fmt and rng.coin(600) else None)}
 
 
 def settings_args(route, sim):
@@ -158,6 +159,10 @@ def run_route(route, sim, env, simdir, k, stats=None):
     os.makedirs(os.path.join(proj, "grammars"))
     os.makedirs(os.path.join(proj, "out"))
     os.symlink(proj, os.path.join(envdir, "link"))
+    if sim.get("rustfmt_toml"):
+        # a project-level rustfmt configuration above the destination (found from the file's directory upwards)
+        with open(os.path.join(envdir, "rustfmt.toml"), "w") as f:
+            f.write(sim["rustfmt_toml"])
     gpath = os.path.join(proj, "grammars", "g.ebnf")
     with open(gpath, "wb") as f:
         f.write(bytes.fromhex(sim["grammar_hex"]))
@@ -329,7 +334,7 @@ def execute_sim(sim, simdir):
                 if not pr["ok"]:
                     viol.append({"class": "routes-disagree-on-acceptance", "route": route, "env": k, "detail": "format on ok, format off %s" % pr["status"]})
                     continue
-                tmp = os.path.join(simdir, "fmt%d.rs" % k)
+                tmp = os.path.join(simdir, "e%d_%s" % (100 + k, route), "fmt%d.rs" % k)
                 with open(tmp, "wb") as f:
                     f.write(pr["bytes"])
                 p = subprocess.run(["rustfmt", tmp], env=base_env("present"), capture_output=True)
